@@ -249,6 +249,17 @@ def neq_any(a, b):
     return z3.Or(*[toz(x) != toz(y) for x, y in zip(a, b)])
 
 
+def neq_rot(qa, qb):
+    """formula: the quaternion arrays (.., 4) describe different rotations somewhere (q and -q are the same rotation)"""
+    qa = np.asarray(qa, dtype=object).reshape(-1, 4)
+    qb = np.asarray(qb, dtype=object).reshape(-1, 4)
+    assert qa.shape == qb.shape, (qa.shape, qb.shape)
+    terms = []
+    for a, b in zip(qa, qb):
+        terms.append(z3.And(z3.Or(*[toz(x) != toz(y) for x, y in zip(a, b)]), z3.Or(*[toz(x) != -toz(y) for x, y in zip(a, b)])))
+    return z3.Or(*terms)
+
+
 def rel_close(a, b, rtol=1e-9, atol=0.0):
     a = np.asarray(a, dtype=float)
     b = np.asarray(b, dtype=float)
